@@ -555,6 +555,16 @@ func (w *outputBuffer) emitEligibleFrames(output chan queuedFrame, connectionWin
 	for e := w.queue.Front(); e != nil; {
 		f := e.Value.(queuedFrame) //nolint:forcetypeassert // e.Value is always a queuedFrame.
 		if f.flowControlSize() > *connectionWindowSize || f.flowControlSize() > w.windowSize {
+			// A DATA frame that is larger than the available window is split, otherwise a receiver
+			// whose window never grows to the size of the frame would never get it.
+			avail := min(*connectionWindowSize, w.windowSize)
+			if df, ok := f.(*queuedDataFrame); ok && avail > 0 {
+				output <- &queuedDataFrame{streamID: df.streamID, data: df.data[:avail]}
+				df.data = df.data[avail:]
+
+				*connectionWindowSize -= avail
+				w.windowSize -= avail
+			}
 			break
 		}
 		output <- f
